@@ -125,11 +125,16 @@ class SuperNetCombiner(nn.Module):
         :rtype: Dict[str, Any]
         """
         with torch.no_grad():
+            # report the coefficients of the current alpha, but leave the ones sampled by the last
+            # forward pass (those read by get_cost) as they are: summary() is an observer
+            sampled = self.theta_alpha
             self.sample_alpha()
+            reported = self.theta_alpha
+            self.theta_alpha = sampled
         res = {"supernet_branches": {}}
         for i in range(self.n_branches):
             res["supernet_branches"][f"branch_{i}"] = {}
-            res["supernet_branches"][f"branch_{i}"]['alpha'] = self.theta_alpha[i].item()
+            res["supernet_branches"][f"branch_{i}"]['alpha'] = reported[i].item()
         return res
 
     @property
